@@ -61,7 +61,7 @@ func (t *fnTrans) tokEntry() {
 	t.assume(eq(t.h.get(t.cur, mayCloseHV), "((as const (Array Int Bool)) false)"))
 	// pre-register an "executed" flag for every load of a swap-discipline token field
 	t.tokByInstr = map[*ssa.UnOp]*tokLoad{}
-	for _, b := range t.fn.Blocks {
+	for _, b := range t.allBlocks() {
 		for _, in := range b.Instrs {
 			u, ok := in.(*ssa.UnOp)
 			if !ok || u.Op != token.MUL {
